@@ -21,9 +21,9 @@ FAMILIES = {
     'C05': ['lazy', 'text'], 'C09': ['ruleset'], 'C10': ['ops', 'ruleset', 'builder', 'text'], 'C11': ['ruleset', 'lazy'],
     'C15': ['builder'], 'C17': ['convert'], 'C13': ['ser'], 'C06': ['parse'],
 }
-BOUNDS = ('operand pool of 65 boundary values per operand position (every type, its extremes, None, empty/nested containers); '
-          'expression depth 1 (ops) / 2 (compose, 12-value pool); lazy: 5 conditions x 5 leaves per operator, every error position in '
-          '4-element lists/maps; rulesets of <= 3 rules from 23 building blocks, 2 consecutive evaluations; builder: 53 function names, '
+BOUNDS = ('operand pool of 79 boundary values per operand position (every type, its extremes, None, empty/nested containers, sub-second instants and spans, decimals differing only in scale or sign of zero); '
+          'expression depth 1 (ops) / 2 (compose, 12-value pool); lazy: 5 conditions x 9 leaves per operator (calls, errors, literals), NaN on the left of comparisons, repeated identical items, 3- and 4-operand chains, every error position in '
+          '4-element lists/maps; rulesets of <= 3 rules from ~60 building blocks (each also built through one with_rules batch), cache sandwiches, fan-outs of 129 / 300 distinct cacheable calls, 2 consecutive evaluations; builder: ~100 function names (every printable ASCII non-identifier start), duplicates across calls, '
           'all 3-sequences over 4 rule names through with_rule / with_rules, 5 symbol mixes; convert: type bounds +-1, every pool value as the source of every scalar and collection extraction, lists / maps holding every pool value, a non-convertible element at each position; '
           'parse: every sequence of <= 2 (thorough: <= 3) tokens over a 56-token alphabet through Expr::parse and Rule::parse, out-of-range numerals in every numeric position (and, in every radix, required to be Err), every one-character escape, unicode escape forms, non-ASCII/control characters in 12 templates; '
           'text: every pair of operator constructors over 13 leaves / 7 operand pairs, if with equal branches and literal conditions, 27 parsed texts, each against a tree written with the raw enum variants; ser: 88 values covering every serde data-model kind at its limits, nested containers, non-string keys, failing Serialize impls')
